@@ -95,6 +95,7 @@ func runC07(p *load.Program, r *oblig.Report) {
 	c07CheckThenRegister(p, r, "C07.R2 one sender per partition, retries are synchronous")
 	// a retry resends the batch as it was: nothing between two attempts touches it (the loop shape of C01.R3)
 	shareRules(r, "C07", "C07.R6 a retried batch is the batch that failed", func(sub *oblig.Report) { c01RetryLoop(p, sub) })
+	c07BatchOwnsMessages(p, r)
 }
 
 func c07Queue(p *load.Program, r *oblig.Report) {
@@ -554,6 +555,7 @@ func runC08(p *load.Program, r *oblig.Report) {
 	shareRules(r, "C08", "C08.R7 a request carries only the messages assigned to its partition", func(sub *oblig.Report) { c01RequestIdentity(p, sub) })
 	c08TimerArmedOnce(p, r)
 	c08FullAfterEveryAdd(p, r, "C08.R9 the count limit is tested after every message")
+	shareRules(r, "C08", "C08.R10 a closed batch is produced as soon as the earlier ones have completed (C07.R1)", func(sub *oblig.Report) { c07Queue(p, sub) })
 }
 
 func c08Tables(p *load.Program, r *oblig.Report) {
